@@ -703,6 +703,7 @@ def rule_const(R):
     R.ob("const/server-keepalive-honoured", okh,
          "a Server Keep Alive in the CONNACK always replaces the configured keep-alive (converted from seconds)",
          where=a["span"] if a else hb.span)
+    roles.clause_connack_walk_complete(R, "const/connack-walk-complete")
     # and restarts the schedule after CONNACK
     noa = roles.method(f, RUNTIME, "note_outbound_activity")
     ka_store = [bb for (b, bb, vv, sp) in field_stores(f, "keepalive_interval") if b.name == hcode.name]
